@@ -293,12 +293,35 @@ where
         seen.insert(format!("{:?}", a0));
         q.push_back((a0, init.clone(), start_words * wb, vec![]));
     }
+    // byte streams with a partial trailing word (reading it fails and leaves the stream mid-word), and
+    // adapters created over a stream positioned mid-word: in both cases the position is UNKNOWN
+    // (usize::MAX) until a seek, which must address the word it names whatever preceded it
+    const UNKNOWN: usize = usize::MAX;
+    if wb > 1 {
+        for tail in [1usize, wb - 1] {
+            let mut ragged = init.clone();
+            ragged.extend((0..tail).map(|i| 0xC0u8 + i as u8));
+            let a0 = WordAdapter::<W, Cursor<Vec<u8>>>::new(Cursor::new(ragged.clone()));
+            if seen.insert(format!("{:?}", a0)) {
+                q.push_back((a0, ragged.clone(), 0, vec![]));
+            }
+            let mut c = Cursor::new(ragged.clone());
+            c.set_position((wb + tail) as u64);
+            let a1 = WordAdapter::<W, Cursor<Vec<u8>>>::new(c);
+            if seen.insert(format!("{:?}/unknown", a1)) {
+                q.push_back((a1, ragged, UNKNOWN, vec![]));
+            }
+        }
+    }
     while let Some((a, m, mp, path)) = q.pop_front() {
         out.cov.states += 1;
         if path.len() >= depth {
             continue;
         }
         for op in &ops {
+            if mp == UNKNOWN && !matches!(op, Op::Seek(_)) {
+                continue;
+            }
             let mut a2 = a.clone();
             let mut m2 = m.clone();
             let mut mp2 = mp;
@@ -325,7 +348,8 @@ where
                         if r.is_ok() {
                             fail = Some("read_word beyond the end returned a word".into());
                         }
-                        continue; // position after a failed read_exact is unspecified
+                        // the position after a failed read_exact is unspecified: only seeks go on from here
+                        mp2 = UNKNOWN;
                     }
                 }
                 Op::Write(x) => {
@@ -348,7 +372,7 @@ where
                     Err(e) => fail = Some(format!("set_word_pos({}) failed: {}", k, e)),
                 },
             }
-            if fail.is_none() {
+            if fail.is_none() && mp2 != UNKNOWN {
                 match a2.word_pos() {
                     Ok(p) if p as usize * wb == mp2 => {}
                     Ok(p) => fail = Some(format!("word_pos() = {} but {} bytes = {} words precede the cursor", p, mp2, mp2 / wb)),
@@ -372,7 +396,7 @@ where
                 }
                 continue;
             }
-            let key = format!("{:?}", a2);
+            let key = if mp2 == UNKNOWN { format!("{:?}/unknown", a2) } else { format!("{:?}", a2) };
             if seen.insert(key) {
                 q.push_back((a2, m2, mp2, p2));
             }
@@ -473,6 +497,47 @@ pub fn c11(ctx: &Ctx) -> (CheckMeta, Outcome) {
                         }
                     }
                 }
+                // a sink whose k-th call fails: whatever finishes the writer (flush, into_inner, or just
+                // dropping it), either something reports the failure (an Err or a panic - a destructor has
+                // no other way) or the sink holds the whole image
+                for h in &hs {
+                    let (mbits, _, _) = crate::wrsys::model_history(h, e, wbits);
+                    let want = mbits.to_bytes(e, wbits);
+                    let ncalls = want.len() / (wbits / 8) + 1;
+                    for k in 0..ncalls {
+                        for finisher in crate::wr::FINISHERS {
+                            let backend = format!("adapterfail:{}", k);
+                            out.cov.transitions += h.len() as u64;
+                            out.cov.traces_validated += 1;
+                            let r = crate::wr::run_on_backend(e, wbits, &backend, finisher, h, 0);
+                            let silent = match &r {
+                                Err(_) => None, // the finisher reported (error or panic)
+                                Ok(fo) => {
+                                    if fo.obs.iter().any(|o| matches!(o, crate::wr::WObs::Err(_) | crate::wr::WObs::Panic(_))) {
+                                        None
+                                    } else if fo.bytes != want {
+                                        Some(fo.bytes.clone())
+                                    } else {
+                                        None
+                                    }
+                                }
+                            };
+                            if let Some(got) = silent {
+                                if out.violations.len() < 12 {
+                                    out.violations.push(Violation {
+                                        property: "C11".into(),
+                                        system: format!("adapter-bitstream:failing-sink:{}", finisher),
+                                        config: format!("{}/w{}", e.name(), wbits),
+                                        op_class: "write".into(),
+                                        symptom: "silent-loss".into(),
+                                        detail: format!("the sink's write call #{} failed, nothing reported it, and the sink holds {} instead of {}", k, crate::util::hex(&got), crate::util::hex(&want)),
+                                        replay: crate::wrsys::replay_doc(e, wbits, "", &backend, finisher, h),
+                                    });
+                                }
+                            }
+                        }
+                    }
+                }
                 out
             }));
         }
@@ -481,7 +546,7 @@ pub fn c11(ctx: &Ctx) -> (CheckMeta, Outcome) {
     let meta = CheckMeta {
         property: "C11".into(),
         level: "model_checking".into(),
-        rule: "deviation-bounded exploration of the environment: the Read/Write wrapped by WordAdapter answers every call by an explorer choice (write: whole buffer | every short count 0..len-1 | Interrupted | hard error; flush: Ok | Err; read: as much as possible | every short count | Interrupted | hard error | EOF); ALL schedules with at most 3 (thorough 5) deviations from the default answer, for word sizes 8..128 and sequences of 1..3 words (reads: plus a partial trailing word of 0, 1, W/8-1 bytes); oracle: every write_word that returned Ok has put exactly its native-endian bytes, once and in order, into the sink; every Ok(read_word) is the next W/8 source bytes and exactly those were consumed; a partial trailing word is an error. states = schedules executed, transitions = environment calls. Plus explicit-state BFS (depth 6, thorough 7) of WordAdapter over a seekable Cursor (read_word, write_word, set_word_pos 0..6, word_pos) against a byte-vector model, starting from a stream at offset 0 and from streams already positioned after 1 or 2 words: word_pos = words preceding the cursor after every call, seeking addresses that word. Bit streams written through the adapter over three sinks (Vec, a sink accepting 3 bytes per call, a sink that commits only on flush) with every finisher, for totals of exactly 1, 2, 3 words and off-boundary lengths, must leave exactly the memory image in the sink; further bit streams through the adapter vs memory are part of C01 (backend 'adapter'), C02/C07 (backends 'cursor', 'bufreader')".into(),
+        rule: "deviation-bounded exploration of the environment: the Read/Write wrapped by WordAdapter answers every call by an explorer choice (write: whole buffer | every short count 0..len-1 | Interrupted | hard error; flush: Ok | Err; read: as much as possible | every short count | Interrupted | hard error | EOF); ALL schedules with at most 3 (thorough 5) deviations from the default answer, for word sizes 8..128 and sequences of 1..3 words (reads: plus a partial trailing word of 0, 1, W/8-1 bytes); oracle: every write_word that returned Ok has put exactly its native-endian bytes, once and in order, into the sink; every Ok(read_word) is the next W/8 source bytes and exactly those were consumed; a partial trailing word is an error. states = schedules executed, transitions = environment calls. Plus explicit-state BFS (depth 6, thorough 7) of WordAdapter over a seekable Cursor (read_word, write_word, set_word_pos 0..6, word_pos) against a byte-vector model, starting from a stream at offset 0, from streams already positioned after 1 or 2 words, from streams with a partial trailing word (a failed read leaves the position unknown: only seeks continue, and must address the word they name) and from streams positioned mid-word: word_pos = words preceding the cursor after every call, seeking addresses that word. Bit streams written through the adapter over three sinks (Vec, a sink accepting 3 bytes per call, a sink that commits only on flush) with every finisher, for totals of exactly 1, 2, 3 words and off-boundary lengths, must leave exactly the memory image in the sink; the same histories over a sink whose k-th write call fails (every k, every finisher including a plain drop): something must report the failure or the sink holds the whole image; further bit streams through the adapter vs memory are part of C01 (backend 'adapter'), C02/C07 (backends 'cursor', 'bufreader')".into(),
         assumptions: vec!["the environment alphabet covers what std::io::Read/Write allow: short transfers, Interrupted, errors".into()],
     };
     (meta, out)
